@@ -126,8 +126,8 @@ def _explicit_case(draw):
     """API route: Species objects that carry their *own* binding energy / yield (property setters) are handed to Reaction."""
     model = draw(st.sampled_from(["hh93", "rr07x"]))
     ices = draw(st.lists(st.sampled_from(ICE), min_size=1, max_size=3, unique=True))
-    # (hh93's cosmic-ray / photo-desorption need symbols only the Leeds reaction class registers: not reachable through the API)
-    types = {"hh93": [201], "rr07x": [201, 210]}[model]
+    # (the other desorption processes need symbols that only the Leeds / UCLCHEM reaction classes register: not reachable through the API)
+    types = {"hh93": [201], "rr07x": [201]}[model]
     reacs = []
     for x in ices:
         for t in draw(st.lists(st.sampled_from(types), min_size=1, max_size=3, unique=True)):
@@ -349,7 +349,7 @@ def _explicit_network(case, how):
         update_photon_yield({"#" + x: v for x, v in case["yield"].items()})
 
     def ice(x):
-        if how != "objects":
+        if how != "objects" or x not in case["eb"]:
             return "#" + x
         sp = Species("#" + x)
         sp.binding_energy = case["eb"][x]
@@ -360,7 +360,7 @@ def _explicit_network(case, how):
     reacs = [Reaction(["H", "H"], ["H2"], -1.0, -1.0, 1.0e-17, 0.0, 0.0, ReactionType.GAS_TWOBODY, 1)]
     for k, rc in enumerate(case["reactions"]):
         if rc["t"] == 300:
-            reacs.append(Reaction([ice(rc["x"]), ice(rc["x2"]) if rc["x2"] != "H" or how != "objects" else Species("#H")], ["#H2O"], -1.0, -1.0, rc["a"], 0.0, 0.0, ReactionType(300), k + 2))
+            reacs.append(Reaction([ice(rc["x"]), ice(rc["x2"])], ["#H2O"], -1.0, -1.0, rc["a"], 0.0, 0.0, ReactionType(300), k + 2))
         else:
             reacs.append(Reaction([ice(rc["x"])], [rc["x"]], -1.0, -1.0, 1.0, 0.0, 960.0, ReactionType(rc["t"]), k + 2))
     return Network(reactions=reacs, grain_model=case["model"])
